@@ -26,10 +26,15 @@ class InjectedFault(ValueError):
 
 
 FAULTS = {'ValueError': InjectedFault, 'StopIteration': StopIteration, 'ZeroDivisionError': ZeroDivisionError, 'KeyError': KeyError,
-          'RuntimeError': RuntimeError, 'OverflowError': OverflowError, 'GeneratorExit': None}
+          'RuntimeError': RuntimeError, 'OverflowError': OverflowError, 'GeneratorExit': None,
+          'AttributeError': AttributeError, 'TypeError': TypeError, 'IndexError': IndexError, 'MemoryError': MemoryError,
+          # not Exception subclasses: Ctrl-C in a notebook, sys.exit() in a callback
+          'KeyboardInterrupt': KeyboardInterrupt, 'SystemExit': SystemExit}
 
 
 class Shared(object):
+    wrap = False      # True: every proxy is the only range of a multi-range potential form (as every potable-built function is)
+
     def __init__(self, fail_at, exc=InjectedFault, ret=None):
         self.count = 0
         self.fail_at = fail_at
@@ -60,7 +65,11 @@ def make_objects(target, shared, n):
     import atsim.potentials as ap
     from atsim.potentials import pair_tabulation as PT, eam_tabulation as ET
     import math
-    P = lambda f: Proxy(shared, f)   # noqa
+    def P(f):
+        if shared.wrap:
+            from atsim.potentials import create_Multi_Range_Potential_Form, Multi_Range_Defn
+            return create_Multi_Range_Potential_Form(Multi_Range_Defn('>=', -1.0, Proxy(shared, f)))
+        return Proxy(shared, f)
     pots = [ap.Potential('A', 'A', P(lambda r: 2.0 * math.exp(-r))), ap.Potential('A', 'B', P(lambda r: 1.0 + 0.5 * r * r)),
             ap.Potential('B', 'B', P(lambda r: 3.0 / (1.0 + r)))]
     fs = target.endswith('_fs') or 'FinnisSinclair' in target
@@ -130,9 +139,10 @@ class GzipSink(object):
         return data
 
 
-def api_run(target, k, n, exc=InjectedFault, big=False, ret=None, sink_kind=None):
+def api_run(target, k, n, exc=InjectedFault, big=False, ret=None, sink_kind=None, wrap=False):
     """-> (raised?, bytes in sink, evaluations, second-write outcome)"""
     shared = Shared(k, exc, ret)
+    shared.wrap = wrap
     write, binary = (make_big if big else make_objects)(target, shared, n)
     sink = io.BytesIO() if binary else io.StringIO()
     if sink_kind == 'writeonly':
@@ -268,6 +278,8 @@ def cases(tier):
             for k in sorted(set([1, 2, N // 2, N - 1, N])):
                 if name != 'ValueError':
                     out.append(dict(route='api', target=tgt, k=k, n=4, N=N, exc=name))
+                if k in (2, N // 2, N):
+                    out.append(dict(route='api', target=tgt, k=k, n=4, N=N, exc=name, wrap=True))
     # evaluations that RETURN something unprintable (a complex number, as negative**fractional does) at k: the failure happens while formatting
     for tgt in API_TARGETS:
         N, _ref = count_evals(tgt, 4)
@@ -304,7 +316,7 @@ def run_api(case):
         return viol
     exc = FAULTS[case.get('exc', 'ValueError')]
     ret = complex(1.0, 1.0) if case.get('ret') == 'complex' else None
-    raised, first, cnt, second = api_run(tgt, k, n, exc, ret=ret, sink_kind=case.get('sink'))
+    raised, first, cnt, second = api_run(tgt, k, n, exc, ret=ret, sink_kind=case.get('sink'), wrap=bool(case.get('wrap')))
     if k == 0:
         if raised or first != ref:
             V(viol, 'sink-kind-changes-output:%s' % tgt, '%s written to a %s sink: %s, %d bytes; to a StringIO %d bytes' % (tgt, case.get('sink'), 'raised' if raised else 'returned', len(first), len(ref)))
